@@ -14,7 +14,7 @@ def cval(z):
         z = z.item()
     z = complex(z)
     a, b = dyadic(z.real), dyadic(z.imag)
-    return [a if a is not None else [7, 31], b if b is not None else [7, 31]]
+    return [a if a is not None else [7, 20], b if b is not None else [7, 20]]
 
 
 class C07(Prop):
@@ -161,7 +161,7 @@ class C07(Prop):
                 try:
                     v = S.expect(T)
                     d = dyadic(v)
-                    rec["val"] = d if d is not None else [7, 31]
+                    rec["val"] = d if d is not None else [7, 20]
                 except NotImplementedError as e:
                     rec["refused"] = _exc(e)
                     rec["mixed_receiver"] = scn["r"] != 0
@@ -177,7 +177,7 @@ class C07(Prop):
                 for b in scn["bits"]:
                     v = S.get_prob(be.ivec(b) if be.name == "torch" else be.ivec(b))
                     d = dyadic(v)
-                    vals.append(d if d is not None else [7, 31])
+                    vals.append(d if d is not None else [7, 20])
                 rec["vals"] = vals
                 rec["pre1"] = be.p_state(S)
             except NotImplementedError as e:
